@@ -63,4 +63,5 @@ func verifPooledCount() int
 func verifPermMaps(on bool)
 func verifFreeze(x interface{}, label string)
 func verifUnfreeze()
-func verifJoin()
+func verifGo(f func()) // runs f as a goroutine (engine: a scheduled thread)
+func verifJoin()   // waits for every goroutine started with verifGo
